@@ -207,6 +207,10 @@ def enc_case(kind, mask, salt, value, rec, stub):
 
     r = nsan.check_record_against_cell(c, buf, v)
     if r is not None:
+        # the kind is the kind of the cell, whatever references it carries (a number with a currency-format reference is a
+        # number; a currency cell without one is a currency cell)
+        if r["type"] != TYPE[kind]:
+            v("enc_kind", {"want": kind, "type_byte": r["type"]}, {"mask": hex(mask), "ids": {a: ids[a] for a in ids}})
         # payload, by the reference decoder
         pb = PAYLOAD_BIT[kind]
         if pb and not r["flags"] & pb:
@@ -236,6 +240,10 @@ def enc_case(kind, mask, salt, value, rec, stub):
         return
     if type(c2).__name__ != CLS[kind]:
         v("lib_roundtrip_kind", {"got": type(c2).__name__}, {"buf": bytes(buf).hex()})
+    elif kind in ("number", "currency"):
+        from numbers_parser.constants import CellType
+        if (c2._type == CellType.CURRENCY) != (kind == "currency"):
+            v("lib_roundtrip_kind", {"got": "currency" if c2._type == CellType.CURRENCY else "number"}, {"buf": bytes(buf).hex(), "mask": hex(mask)})
     for a in OPT:
         if getattr(c2, a) != ids.get(a):
             v("lib_roundtrip_id", {"field": a[1:]}, {"want": ids.get(a), "got": getattr(c2, a), "mask": hex(mask)})
